@@ -47,7 +47,7 @@ def run(ctx):
              "the after-timer is not armed exactly once per declared transition (loop structure changed)", call)
         # the event carries the transition's own event name
         ev = call.args[1] if len(call.args) > 1 else None
-        src = None
+        src = ev if isinstance(ev, ast.Call) else None          # AfterEvent(type=t.event) written in place
         if isinstance(ev, ast.Name):
             from sa.util import assignments_to
             for a in assignments_to(sched, ev.id):
@@ -104,7 +104,17 @@ def run(ctx):
                 lp_ok = any(isinstance(l, ast.For) and norm(l.iter) == selv for l in enclosing_loops(sct, y))
                 c.ob("R9", not bad and lp_ok, sct, "every-selected-flag-is-set", "every selected cancel flag is set" if not bad and lp_ok else
                      f"the cancel flags are set only under {bad or 'a loop that does not run over the selection'}: with timers pending for the state nothing is cancelled", y)
+        from sa.util import expand_names
         pfx = [a for a in own_nodes(sct.node) if isinstance(a, ast.Assign) and isinstance(a.value, ast.JoinedStr) and "::" in norm(a.value)]
+        if not pfx:
+            # the prefix written in place (or folded in from a helper): k.startswith(f"{state.id}::")
+            for a_ in parts:
+                for y_ in ast.walk(expand_names(sct, a_)):
+                    if isinstance(y_, ast.Call) and isinstance(y_.func, ast.Attribute) and y_.func.attr == "startswith" and y_.args:
+                        arg = y_.args[0]
+                        last = arg.values[-1] if isinstance(arg, ast.JoinedStr) and arg.values else (arg.right if isinstance(arg, ast.BinOp) else None)
+                        if isinstance(last, ast.Constant) and isinstance(last.value, str) and last.value.endswith("::"):
+                            pfx.append(y_)
         c.ob("R9", bool(pfx), sct, "prefix-carries-the-separator", "the key prefix ends with the '::' separator" if pfx else
              "the key prefix no longer ends with '::': the timers of a state whose id merely extends this one's id are cancelled too", sct.node)
     sat = p.method("SyncInterpreter", "_after_timer")
@@ -157,8 +167,8 @@ def run(ctx):
         c.ob("R6", nv in named, rdf, "callable-named-delay-is-called", "a named delay registered as a callable is called" if nv in named else
              f"a named delay that is a callable is no longer called under 'callable({nv})': float() of the function fails, the error is contained and "
              f"the timer silently never fires", lookups[0])
-        strtest = [x for x in own_nodes(rdf.node) if isinstance(x, ast.If) and any(lookups[0] is y for st_ in x.body for y in ast.walk(st_))]
-        ok = bool(strtest) and canon_atom(strtest[0].test)[:2] == ("truthy", f"isinstance({spec_p}, str)") and canon_atom(strtest[0].test)[3] is True
+        # (whether written as  if isinstance(spec, str): ...lookup...  or as the guard clause  if not isinstance(spec, str): return None)
+        ok = any(canon_atom(a_, pol_)[:2] == ("truthy", f"isinstance({spec_p}, str)") and canon_atom(a_, pol_)[3] is True for a_, pol_ in guards_at(rdf, lookups[0]))
         c.ob("R6", ok, rdf, "named-delay-only-for-strings", "the named-delay lookup is taken for string delays" if ok else
              "the named-delay lookup is no longer guarded by 'the delay is a string'", lookups[0])
     nums = [r_ for r_ in own_nodes(rdf.node) if isinstance(r_, ast.Return) and isinstance(r_.value, ast.Call) and norm(r_.value.func) == "float" and norm(r_.value.args[0]) == spec_p]
